@@ -441,3 +441,270 @@ func TestLibDenseGroup(t *testing.T) {
 		}
 	}
 }
+
+func TestLibDatatypes(t *testing.T) {
+	opaque := make([]byte, 3*16)
+	for i := range opaque {
+		opaque[i] = byte(i * 3)
+	}
+	r := writeFile(t, "types.h5", nil, func(fw *hdf5.FileWriter) {
+		mk := func(name string, dt hdf5.Datatype, dims []uint64, data interface{}, opts ...hdf5.DatasetOption) {
+			ds, err := fw.CreateDataset(name, dt, dims, opts...)
+			if err != nil {
+				t.Fatalf("%s: CreateDataset: %v", name, err)
+			}
+			if err := ds.Write(data); err != nil {
+				t.Fatalf("%s: Write: %v", name, err)
+			}
+		}
+		mk("/i8", hdf5.Int8, []uint64{3}, []int8{-1, 2, -3})
+		mk("/i16", hdf5.Int16, []uint64{2}, []int16{-300, 300})
+		mk("/i64", hdf5.Int64, []uint64{2}, []int64{-1 << 40, 1 << 40})
+		mk("/u8", hdf5.Uint8, []uint64{4}, []uint8{1, 2, 3, 255})
+		mk("/u16", hdf5.Uint16, []uint64{1}, []uint16{65535})
+		mk("/u32", hdf5.Uint32, []uint64{1}, []uint32{4000000000})
+		mk("/u64", hdf5.Uint64, []uint64{1}, []uint64{1 << 63})
+		mk("/f32", hdf5.Float32, []uint64{2}, []float32{1.5, -2.5})
+		mk("/arr", hdf5.ArrayInt32, []uint64{2}, []int32{1, 2, 3, 4, 5, 6}, hdf5.WithArrayDims([]uint64{3}))
+		mk("/enum", hdf5.EnumInt8, []uint64{4}, []int8{0, 1, 2, 1},
+			hdf5.WithEnumValues([]string{"Red", "Green", "Blue"}, []int64{0, 1, 2}))
+		mk("/ref", hdf5.ObjectReference, []uint64{2}, []uint64{48, 96})
+		mk("/opq", hdf5.Opaque, []uint64{3}, opaque, hdf5.WithOpaqueTag("Binary blob", 16))
+		mk("/vli", hdf5.VLenInt32, []uint64{3}, [][]int32{{1, 2}, {3, 4, 5}, {6}})
+	})
+	eq := func(path string, class int, size uint32, dims []uint64, want []byte) *Object {
+		t.Helper()
+		o := mustDataset(t, r, path, class, size, dims)
+		if want != nil && !bytes.Equal(o.Data, want) {
+			t.Errorf("%s: data % x want % x", path, o.Data, want)
+		}
+		return o
+	}
+	eq("/i8", 0, 1, []uint64{3}, []byte{0xff, 2, 0xfd})
+	eq("/i16", 0, 2, []uint64{2}, []byte{0xd4, 0xfe, 0x2c, 0x01})
+	eq("/i64", 0, 8, []uint64{2}, nil)
+	if o := eq("/u8", 0, 1, []uint64{4}, []byte{1, 2, 3, 255}); o.Type.Signed {
+		t.Errorf("/u8 decoded as signed")
+	}
+	eq("/u16", 0, 2, []uint64{1}, []byte{0xff, 0xff})
+	eq("/u32", 0, 4, []uint64{1}, []byte{0x00, 0x28, 0x6b, 0xee})
+	eq("/u64", 0, 8, []uint64{1}, []byte{0, 0, 0, 0, 0, 0, 0, 0x80})
+	eq("/f32", 1, 4, []uint64{2}, []byte{0, 0, 0xc0, 0x3f, 0, 0, 0x20, 0xc0})
+	a := eq("/arr", 10, 12, []uint64{2}, leI32([]int32{1, 2, 3, 4, 5, 6}))
+	if a.Type.Base == nil || a.Type.Base.Class != 0 || fmt.Sprint(a.Type.ArrayDims) != "[3]" {
+		t.Errorf("/arr: type %+v", a.Type)
+	}
+	e := eq("/enum", 8, 1, []uint64{4}, []byte{0, 1, 2, 1})
+	if fmt.Sprint(e.Type.EnumNames) != "[Red Green Blue]" || len(e.Type.EnumValues) != 3 || e.Type.EnumValues[2][0] != 2 {
+		t.Errorf("/enum: names %v values %v", e.Type.EnumNames, e.Type.EnumValues)
+	}
+	eq("/ref", 7, 8, []uint64{2}, []byte{48, 0, 0, 0, 0, 0, 0, 0, 96, 0, 0, 0, 0, 0, 0, 0})
+	op := eq("/opq", 5, 16, []uint64{3}, opaque)
+	if op.Type.OpaqueTag != "Binary blob" {
+		t.Errorf("/opq tag %q", op.Type.OpaqueTag)
+	}
+	v := mustDataset(t, r, "/vli", 9, 16, []uint64{3})
+	want := [][]int32{{1, 2}, {3, 4, 5}, {6}}
+	if len(v.VLen) != 3 {
+		t.Fatalf("/vli: %d elements", len(v.VLen))
+	}
+	for i := range want {
+		if !bytes.Equal(v.VLen[i], leI32(want[i])) {
+			t.Errorf("/vli[%d] = % x", i, v.VLen[i])
+		}
+	}
+}
+
+func TestLibManyChunks(t *testing.T) {
+	// 500 chunks: more than the 2K=64 entries one chunk B-tree node may hold.
+	const N = 1000
+	vals := make([]int32, N)
+	for i := range vals {
+		vals[i] = int32(i * 3)
+	}
+	r := writeFile(t, "manychunks.h5", nil, func(fw *hdf5.FileWriter) {
+		ds, err := fw.CreateDataset("/c", hdf5.Int32, []uint64{N}, hdf5.WithChunkDims([]uint64{2}))
+		check(t, err)
+		check(t, ds.Write(vals))
+	})
+	o := mustDataset(t, r, "/c", 0, 4, []uint64{N})
+	if !bytes.Equal(o.Data, leI32(vals)) {
+		t.Errorf("data mismatch")
+	}
+	n := 0
+	for _, e := range r.Extents {
+		if e.Kind == "chunk" {
+			n++
+		}
+	}
+	if n != N/2 {
+		t.Errorf("%d chunk extents, want %d", n, N/2)
+	}
+}
+
+func TestLibManyDenseAttrs(t *testing.T) {
+	const N = 350
+	r := writeFile(t, "manyattrs.h5", nil, func(fw *hdf5.FileWriter) {
+		ds, err := fw.CreateDataset("/d", hdf5.Int32, []uint64{1})
+		check(t, err)
+		check(t, ds.Write([]int32{1}))
+		for i := 0; i < N; i++ {
+			if err := ds.WriteAttribute(fmt.Sprintf("attribute_number_%04d", i), []float64{float64(i), 1, 2, 3}); err != nil {
+				t.Fatalf("attribute %d: %v", i, err)
+			}
+		}
+	})
+	o := mustDataset(t, r, "/d", 0, 4, []uint64{1})
+	got := map[string][]byte{}
+	for _, a := range o.Attrs {
+		got[a.Name] = a.Data
+	}
+	if len(got) != N {
+		t.Errorf("decoded %d distinct attributes, want %d", len(got), N)
+	}
+	for i := 0; i < N; i++ {
+		name := fmt.Sprintf("attribute_number_%04d", i)
+		if !bytes.Equal(got[name], leF64([]float64{float64(i), 1, 2, 3})) {
+			t.Errorf("%s: % x", name, got[name])
+			break
+		}
+	}
+	kinds := map[string]int{}
+	for _, e := range r.Extents {
+		kinds[e.Kind]++
+	}
+	t.Logf("extent kinds: %v", kinds)
+}
+
+func TestLibGroupAttributes(t *testing.T) {
+	r := writeFile(t, "gattr.h5", nil, func(fw *hdf5.FileWriter) {
+		g, err := fw.CreateGroup("/g")
+		check(t, err)
+		check(t, g.WriteAttribute("version", int32(3)))
+		check(t, g.WriteAttribute("scale", float64(2.5)))
+	})
+	g := paths(r)["/g"]
+	if g == nil || g.Kind != "group" {
+		t.Fatalf("/g: %+v", g)
+	}
+	got := map[string][]byte{}
+	for _, a := range g.Attrs {
+		got[a.Name] = a.Data
+	}
+	if !bytes.Equal(got["version"], leI32([]int32{3})) || !bytes.Equal(got["scale"], leF64([]float64{2.5})) {
+		t.Errorf("group attributes: %v", got)
+	}
+}
+
+func TestLibV0Chunked(t *testing.T) {
+	vals := make([]float64, 6*4)
+	for i := range vals {
+		vals[i] = float64(i) / 4
+	}
+	r := writeFile(t, "v0chunk.h5", []interface{}{hdf5.WithSuperblockVersion(0)}, func(fw *hdf5.FileWriter) {
+		ds, err := fw.CreateDataset("/c", hdf5.Float64, []uint64{6, 4}, hdf5.WithChunkDims([]uint64{4, 3}), hdf5.WithGZIPCompression(5))
+		check(t, err)
+		check(t, ds.Write(vals))
+		check(t, ds.WriteAttribute("a", int32(5)))
+	})
+	o := mustDataset(t, r, "/c", 1, 8, []uint64{6, 4})
+	if !bytes.Equal(o.Data, leF64(vals)) {
+		t.Errorf("data mismatch")
+	}
+	if len(o.Attrs) != 1 || o.Attrs[0].Name != "a" {
+		t.Errorf("attrs %+v", o.Attrs)
+	}
+}
+
+func TestLibResize(t *testing.T) {
+	vals := []int32{1, 2, 3, 4, 5, 6}
+	r := writeFile(t, "resize.h5", nil, func(fw *hdf5.FileWriter) {
+		ds, err := fw.CreateDataset("/r", hdf5.Int32, []uint64{6}, hdf5.WithChunkDims([]uint64{4}), hdf5.WithMaxDims([]uint64{hdf5.Unlimited}))
+		if err != nil {
+			t.Skipf("CreateDataset with max dims: %v", err)
+		}
+		check(t, ds.Write(vals))
+		if err := ds.Resize([]uint64{10}); err != nil {
+			t.Logf("Resize: %v", err)
+		}
+	})
+	o := paths(r)["/r"]
+	if o == nil {
+		t.Fatalf("/r missing")
+	}
+	t.Logf("dims %v maxdims %v dataErr %q data % x", o.Dims, o.MaxDims, o.DataErr, o.Data)
+	if len(o.MaxDims) != 1 || o.MaxDims[0] != ^uint64(0) {
+		t.Errorf("max dims %v, want unlimited", o.MaxDims)
+	}
+	if o.DataErr == "" && !bytes.HasPrefix(o.Data, leI32(vals)) {
+		t.Errorf("data does not start with the written values")
+	}
+}
+
+// libSeedImages returns a few library-written images used as mutation seeds.
+func libSeedImages(t *testing.T) [][]byte {
+	t.Helper()
+	dir := t.TempDir()
+	var out [][]byte
+	mk := func(name string, opts []interface{}, build func(fw *hdf5.FileWriter)) {
+		path := filepath.Join(dir, name)
+		fw, err := hdf5.CreateForWrite(path, hdf5.CreateTruncate, opts...)
+		if err != nil {
+			t.Fatal(err)
+		}
+		build(fw)
+		if err := fw.Close(); err != nil {
+			t.Fatal(err)
+		}
+		b, err := os.ReadFile(path)
+		if err != nil {
+			t.Fatal(err)
+		}
+		out = append(out, b)
+	}
+	mk("a.h5", nil, func(fw *hdf5.FileWriter) {
+		ds, err := fw.CreateDataset("/c", hdf5.Int32, []uint64{7, 5}, hdf5.WithChunkDims([]uint64{3, 2}), hdf5.WithShuffle(), hdf5.WithGZIPCompression(6), hdf5.WithFletcher32())
+		check(t, err)
+		check(t, ds.Write(make([]int32, 35)))
+		for i := 0; i < 10; i++ {
+			check(t, ds.WriteAttribute(fmt.Sprintf("a%d", i), int32(i)))
+		}
+	})
+	mk("b.h5", []interface{}{hdf5.WithSuperblockVersion(0)}, func(fw *hdf5.FileWriter) {
+		_, err := fw.CreateGroup("/g")
+		check(t, err)
+		ds, err := fw.CreateDataset("/g/s", hdf5.VLenString, []uint64{2})
+		check(t, err)
+		check(t, ds.Write([]string{"x", "yy"}))
+		check(t, fw.CreateSoftLink("/soft", "/g/s"))
+	})
+	return out
+}
+
+// TestLibAttributeOnOlderObject documents (without asserting) what the decoder sees
+// when an attribute is added to an object that is not the most recently created
+// one — a known defect of the library: the grown header overwrites its neighbour.
+func TestLibAttributeOnOlderObject(t *testing.T) {
+	r := writeFile(t, "older.h5", nil, func(fw *hdf5.FileWriter) {
+		d1, err := fw.CreateDataset("/first", hdf5.Int32, []uint64{2})
+		check(t, err)
+		check(t, d1.Write([]int32{1, 2}))
+		d2, err := fw.CreateDataset("/second", hdf5.Int32, []uint64{2})
+		check(t, err)
+		check(t, d2.Write([]int32{3, 4}))
+		for i := 0; i < 4; i++ {
+			if err := d1.WriteAttribute(fmt.Sprintf("attr%d", i), int32(i)); err != nil {
+				t.Logf("WriteAttribute %d: %v", i, err)
+			}
+		}
+	})
+	p := paths(r)
+	for _, name := range []string{"/first", "/second"} {
+		if o := p[name]; o != nil {
+			t.Logf("%s: kind=%s msgs=%#x attrs=%d data=% x err=%q", name, o.Kind, o.MsgTypes, len(o.Attrs), o.Data, o.DataErr)
+		} else {
+			t.Logf("%s: not reachable", name)
+		}
+	}
+	t.Logf("finding classes: %v", r.FindingClasses())
+}
